@@ -58,7 +58,7 @@ BUILTIN_NAMES = ['KeyError', 'IndexError', 'LookupError', 'ValueError', 'ZeroDiv
                  'ArithmeticError', 'RuntimeError', 'Exception', 'AttributeError', 'TypeError']
 ZEXC_NAMES = ['NotFound', 'BadRequest', 'Forbidden', 'Redirect', 'Unauthorized',
               'InternalError', 'HTTPException']
-UNKNOWN_NAMES = ['NoSuchErrorAtAll', 'Input_Error']
+UNKNOWN_NAMES = ['NoSuchErrorAtAll', 'Input Error']   # the second one is the DT_Raise docstring example
 
 
 def resolve(name):
@@ -91,17 +91,27 @@ def enc(v):
 
 
 # ---------------------------------------------------------------- printer
-def to_src(nodes):
-    return ''.join(_src(n) for n in nodes)
+def to_src(nodes, style='name'):
+    """style 'name': probes are namespace objects rendered by name (<dtml-var P_id>, the
+    __render_with_namespace__ protocol hands them the namespace); style 'expr': probes are
+    called from expressions (<dtml-var "probe('id', _)">)."""
+    return ''.join(_src(n, style) for n in nodes)
 
 
-def _src(n):
+def _src(n, style):
     k = n[0]
+
+    def to_src(nodes):
+        return ''.join(_src(x, style) for x in nodes)
     if k == 'text':
         return n[1]
     if k == 'probe':
+        if style == 'name':
+            return '<dtml-var P_%s>' % n[1]
         return '<dtml-var "probe(\'%s\', _)">' % n[1]
     if k == 'boom':
+        if style == 'name':
+            return '<dtml-var X_%s>' % n[1]
         return '<dtml-var "boom(\'%s\', \'%s\', \'%s\', %d, _)">' % (n[1], n[2], n[3], n[4])
     if k == 'raise':
         mode, name, body = n[1], n[2], n[3]
@@ -161,6 +171,8 @@ def _src(n):
     if k == 'sub':
         if n[2] == 'var':
             return '<dtml-var sub_%s>' % n[1]
+        if style == 'name':
+            return '<dtml-var C_%s>' % n[1]
         return '<dtml-var "callsub(\'%s\', _)">' % n[1]
     raise ValueError('unknown node %r' % (n,))
 
@@ -700,7 +712,7 @@ def placement_actions():
     for mode, name in [('name', 'KeyError'), ('name', 'LookupError'), ('type', 'ValueError'),
                        ('name', 'ZeroDivisionError'), ('name', 'NotFound'), ('name', 'Redirect'),
                        ('type', 'BadRequest'), ('name', 'Unauthorized'),
-                       ('name', 'NoSuchErrorAtAll'), ('type', 'Input_Error'), ('expr', 'NoSuchErrorAtAll'),
+                       ('name', 'NoSuchErrorAtAll'), ('type', 'Input Error'), ('expr', 'NoSuchErrorAtAll'),
                        ('expr', 'E1'), ('qexpr', 'E2'), ('cls', 'E3'), ('expr', 'Other'), ('cls', 'E12'),
                        ('expr', 'KeyError'), ('qexpr', 'IndexError')]:
         acts.append(('raise', mode, name))
